@@ -1,7 +1,7 @@
 (* C17 — Signature data verifies exactly when made by the right key over the right data. *)
 From Coq Require Import List ZArith Bool.
 Import ListNotations.
-From OV Require Import C17.Model C17.Proofs.
+From OV Require Import C17.Model C17.Proofs C17.Bytes.
 Open Scope Z_scope.
 
 Theorem C17_completeness : forall (key pubkey : Type) (pub : key -> pubkey)
@@ -25,6 +25,25 @@ Theorem C17_soundness_reduction : forall (key pubkey : Type) (pub : key -> pubke
   exists d, d <> cert ++ nonce /\ verify (alg_of p) (pub k) d signature = true.
 Proof. intros key pubkey pub verify. exact (soundness_reduction key pubkey pub verify). Qed.
 Print Assumptions C17_soundness_reduction.
+
+(* The table model the implementation is compared with IS the code model: create / verify_data
+   (signed data DER(certificate) ++ nonce, algorithm of the policy) run with an ideal signature
+   scheme on bytes - which satisfies the law C17_completeness assumes - give, for every case with
+   real certificates and every way the harness touches the signature, the verdict of [run]. *)
+Theorem C17_code_model_is_table_model : forall c, coherent c -> run_bytes c = run c.
+Proof. exact run_bytes_eq. Qed.
+Print Assumptions C17_code_model_is_table_model.
+
+Theorem C17_ideal_scheme_lawful : forall a k d, ideal_verify a k d (ideal_sign a k d) = true.
+Proof. exact ideal_sign_verifies. Qed.
+Print Assumptions C17_ideal_scheme_lawful.
+
+(* under the ideal scheme a signature that was touched in any way (bit flip, truncation, extension,
+   emptied) is refused whatever certificate, nonce, key and policy the verifier expects *)
+Theorem C17_touched_signature_rejected : forall m a a' k k' d d', m <> SigIntact ->
+  ideal_verify a' k' d' (mutate m (ideal_sign a k d)) = false.
+Proof. exact touched_rejected. Qed.
+Print Assumptions C17_touched_signature_rejected.
 
 Theorem C17_oracle : forall c : case, valid c = true -> known c = 0 -> oracle c (run c) = true.
 Proof. intros c Hv _. apply oracle_holds. exact Hv. Qed.
